@@ -1117,7 +1117,15 @@ impl AstNode for MapConstructor {
 
 impl DataExpr {
     fn number_parse(pair: Pair<Rule>) -> Result<Self, Error> {
-        Ok(DataExpr::Number(pair.as_str().parse().unwrap()))
+        let raw = pair.as_str();
+
+        let value = raw.parse().map_err(|_| Error {
+            message: "number literal out of range".to_string(),
+            src: raw.to_string(),
+            span: Span::new(0, raw.len()),
+        })?;
+
+        Ok(DataExpr::Number(value))
     }
 
     fn bool_parse(pair: Pair<Rule>) -> Result<Self, Error> {
